@@ -67,6 +67,10 @@ func (e seqEnv) wellFormedFor(methodKind string) bool {
 	if methodKind == "unary" {
 		return m == "verif.Echo/Unary"
 	}
+	// a body, a trailer or a reset for a stream that is not open is not a request to open one
+	if e.Body || e.Trailer || e.Reset == 1 {
+		return false
+	}
 	return m == "verif.Echo/Bidi" || m == "verif.Echo/SrvStream" || m == "verif.Echo/CliStream"
 }
 
